@@ -85,7 +85,20 @@ def gen_pic_program(rnd):
         else:
             stmts.append(apm.blk(".blkb", apm.num(2 * rnd.randrange(0, 6))))
     aux = {}
-    if rnd.random() < 0.25:
+    if rnd.random() < 0.35 and len(stmts) > 6:
+        # two stretches of the program live in two included files (labels exported): references and label differences then run between
+        # the two included files and the including one
+        cuts = sorted(rnd.sample(range(1, len(stmts)), 4))
+        for name, (a, b) in (("pb9.mac", (cuts[2], cuts[3])), ("pa9.mac", (cuts[0], cuts[1]))):
+            moved = [apm.label(s.labels[0][0], extern=True) if (s.k == "nop" and s.labels) else s for s in stmts[a:b]]
+            aux[name] = apm.SrcFile(name, moved)
+            stmts[a:b] = [apm.include(name)]
+        stmts[:] = [apm.label(s.labels[0][0], extern=True) if (s.k == "nop" and s.labels) else s for s in stmts]
+    if rnd.random() < 0.5:
+        # the base stated after the code, or somewhere in it: every address is symbolic while the operands are encoded
+        link = stmts.pop(0)
+        stmts.insert(rnd.choice([len(stmts), len(stmts), rnd.randrange(1, len(stmts) + 1)]), link)
+    if rnd.random() < 0.25 and not aux:
         # an included module that states its own origin (an overlay): its labels are fixed numbers whatever the base of the program is, so
         # its code - absolute references to its own labels included - is the same at every base; the program goes on after it
         org = rnd.choice([0o40000, 0o100000, 0o2000, 0o157000])
@@ -260,6 +273,18 @@ def run_case(case, cnt=None, root=None, coef_set=None):
                          f"source: {' | '.join(list(_t.values())[0].splitlines()[:20])}")
                     break
                 cnt["words_compared"] += size // 2
+                # ... and it can be stored as such: the container of a position-independent image differs in its base field only
+                import struct
+                from pdpy11.formats import file_formats
+                try:
+                    blob = file_formats["bin"](o.base, o.code)
+                except Exception as ex:  # pylint: disable=broad-except
+                    viol(f"position-independent program assembles at base {b:#o} ({size} bytes) but no 'bin' container of it can be made: {type(ex).__name__}: {ex}")
+                    break
+                if blob != struct.pack("<HH", b, size) + o0.code:
+                    viol(f"'bin' container of the position-independent image at base {b:#o} is not header(base, length) + image")
+                    break
+                cnt["pic_containers_compared"] = cnt.get("pic_containers_compared", 0) + 1
             return (out, True) if not own else out
         bases = case["bases"]
         if case["kind"] == "gen":
